@@ -171,7 +171,7 @@ func (ck *Check) allocationBounds(rule string, fns []*ssa.Function) {
 	}
 	ck.Stats[rule+" make sites"] = n
 	ck.Stats[rule+" make sizes examined"] = nonConst
-	ck.floor(rule, "make([]T, …) sites on scan paths", n, 8)
+	ck.floor(rule, "make([]T, …) sites on scan paths", n, 4)
 }
 
 // ---- R8 ---------------------------------------------------------------------------------------
@@ -194,6 +194,9 @@ func (ck *Check) nonNegative(v ssa.Value, seen map[ssa.Value]bool, depth int) bo
 	case *ssa.ChangeType:
 		return ck.nonNegative(x.X, seen, depth)
 	case *ssa.Phi:
+		if countDownFromLen(x) {
+			return true
+		}
 		for _, e := range x.Edges {
 			if !ck.nonNegative(e, seen, depth) {
 				return false
@@ -383,7 +386,7 @@ func (ck *Check) libraryPreconditions(rule string, fns []*ssa.Function) {
 		parts = append(parts, fmt.Sprintf("%s=%d", k, counts[k]))
 	}
 	sort.Strings(parts)
-	ck.floor(rule, "WithLabelValues call sites on scan paths", counts["label-arity"], 25)
+	ck.floor(rule, "WithLabelValues call sites on scan paths", counts["label-arity"], 10)
 	ck.floor(rule, "mutex acquisitions on scan paths", counts["mutex"], 2)
 }
 
@@ -396,4 +399,54 @@ func sameAddr(a, b ssa.Value) bool {
 	fa, ok1 := a.(*ssa.FieldAddr)
 	fb, ok2 := b.(*ssa.FieldAddr)
 	return ok1 && ok2 && fa.Field == fb.Field && sameAddr(fa.X, fb.X)
+}
+
+// countDownFromLen: ph is the header φ of a full range over X that starts at len(X) and loses at
+// most one per iteration (every loop-carried input is ph or ph − 1, possibly through an inner φ):
+// it never drops below 0.
+func countDownFromLen(ph *ssa.Phi) bool {
+	l := loopOfHeaderPhi(ph)
+	if l == nil || l.IdxPhi == nil || !l.FullTraversal() || l.Over == nil {
+		return false
+	}
+	okInit := false
+	var step func(v ssa.Value, d int) bool
+	step = func(v ssa.Value, d int) bool {
+		if v == ssa.Value(ph) {
+			return true
+		}
+		if d > 3 {
+			return false
+		}
+		switch x := v.(type) {
+		case *ssa.BinOp:
+			k, ok := x.Y.(*ssa.Const)
+			return ok && x.Op == token.SUB && k.Int64() == 1 && x.X == ssa.Value(ph)
+		case *ssa.Phi:
+			if l.Blocks[x.Block()] && x.Block() != l.Header {
+				for _, e := range x.Edges {
+					if !step(e, d+1) {
+						return false
+					}
+				}
+				return true
+			}
+		}
+		return false
+	}
+	for i, e := range ph.Edges {
+		pred := ph.Block().Preds[i]
+		if !l.Blocks[pred] {
+			lc, ok := isBuiltinCall(e, "len")
+			if !ok || lc.Common().Args[0] != l.Over {
+				return false
+			}
+			okInit = true
+			continue
+		}
+		if !step(e, 0) {
+			return false
+		}
+	}
+	return okInit
 }
